@@ -180,3 +180,9 @@ Definition t_step (st : tstate) (op : top) : tstate :=
   end.
 
 Definition t_run (ops : list top) : tstate := fold_left t_step ops t_init.
+
+(* Tracer.Close: every request that is still waiting gets a dropped-packet error on its reader (one per entry of
+   Tracer.reader; Go walks that map in its own order - the answers are all alike), then every table is emptied *)
+Definition t_close (st : tstate) : tstate :=
+  if t_crash st then st else
+  mkt [] [] [] [] [] [] (t_pay st) (t_out st ++ map (fun e : nat * nat => (snd e, fst e, dropped)) (t_reader st)) false.
